@@ -420,6 +420,9 @@ func RunStress(t *testing.T, sc *SPScenario) (obs *WireObs, failure string) {
 					m := own
 					if !sc.Reuse {
 						m = fixgen.NewMarketDataRequest()
+						if k%3 == 1 { // a message received elsewhere and passed on
+							m = ParsedRequest("x")
+						}
 					}
 					_ = r.S.Send(m.SetMDReqID("s" + strconv.Itoa(i) + "-" + strconv.Itoa(k)))
 				}
